@@ -44,7 +44,7 @@ ASSUMPTIONS = [
     "processes it is rebuilt in-process from the same (deterministic) command line",
 ]
 REQUIRED = [
-    "opb_texts_read", "latex_snippets_read", "latex_documents_read",
+    "opb_texts_read", "locale_exports", "latex_snippets_read", "latex_documents_read",
     "opb_rows_compared", "latex_rows_compared",
     "cnf_formulas", "opb_formulas", "rows_equality", "rows_geq", "coefficients_above_one",
     "negative_degrees", "empty_rows", "empty_formulas", "negated_literals_rendered",
@@ -1136,9 +1136,106 @@ def chunks(xs, k):
         yield xs[i:i + k]
 
 
+LOCALE_SCRIPT = r"""
+import json, os, sys, binascii
+sys.path.insert(0, sys.argv[1])
+import warnings; warnings.simplefilter("ignore")
+from cnfgen.formula.cnf import CNF
+from cnfgen.formula.opb import OPB
+from cnfgen.utils.latexoutput import to_latex_document
+tmp = sys.argv[2]
+NAMES = ["\u03b1_1", "\u03b2^{2}", "caf\u00e9", "x_{\u56fe}", "plain", "\u00fc_{3}"]
+def cnf():
+    F = CNF()
+    for nm in NAMES: F.new_variable(nm)
+    for c in ([1, -2, 3], [-1, 4], [5, -6], [], [2]): F.add_clause(c)
+    return F
+def opb():
+    F = OPB()
+    for nm in NAMES: F.new_variable(nm)
+    F.add_constraint([(2, 1), (1, -2), (3, 4), ">=", 3]); F.add_constraint([(1, 5), (1, -6), "==", 1]); F.add_clause([1, -3])
+    return F
+out = []
+for cls, make in (("CNF", cnf), ("OPB", opb)):
+    routes = [("to_file(name.tex)", ".tex", lambda F, p: F.to_file(p)),
+              ("to_file(name, fileformat='latex')", ".out", lambda F, p: F.to_file(p, fileformat="latex")),
+              ("to_latex_document(F, name)", ".doc", lambda F, p: to_latex_document(F, p)),
+              ("to_latex_document(F, name, export_header=False, extra_text)", ".doc2",
+               lambda F, p: to_latex_document(F, p, export_header=False, extra_text="\u00e9t\u00e9 \u2014 extra")),
+              ("to_file(name.opb)", ".opb", lambda F, p: F.to_file(p)),
+              ("to_file(name.opb, export_varnames=True)", ".v.opb", lambda F, p: F.to_file(p, export_varnames=True)),
+              ("to_file(name.cnf, export_varnames=True)", ".cnf", lambda F, p: F.to_file(p, export_varnames=True))]
+    for label, ext, fn in routes:
+        if cls == "OPB" and ext == ".cnf":
+            continue
+        path = os.path.join(tmp, "f%d%s" % (len(out), ext))
+        rec = {"cls": cls, "route": label}
+        try:
+            fn(make(), path)
+            rec["status"] = "ok"
+        except Exception as e:
+            rec["status"] = "exc"; rec["exc"] = type(e).__name__ + ": " + str(e)[:160]
+        try:
+            rec["bytes"] = binascii.hexlify(open(path, "rb").read()).decode()
+        except OSError:
+            rec["bytes"] = None
+        out.append(rec)
+sys.stdout.write(json.dumps(out))
+"""
+
+
+def case_locale(ctx):
+    """Formulas whose variable names are not ASCII, exported *by file name* from an interpreter whose default text
+    encoding is not UTF-8 (LC_ALL=C with UTF-8 mode and locale coercion off): the files must be the ones written
+    under UTF-8 -- the LaTeX document declares utf8 input, and its rows must show the names."""
+    import binascii
+    import json
+    import subprocess
+    import sys
+    import tempfile
+    import shutil
+    from .. import REPO
+    tmp = tempfile.mkdtemp(prefix="c12loc-")
+    try:
+        script = os.path.join(tmp, "locale_export.py")
+        with open(script, "w", encoding="utf-8") as f:
+            f.write(LOCALE_SCRIPT)
+        envs = {"utf8": dict(os.environ, PYTHONUTF8="1"),
+                "ascii": dict(os.environ, LC_ALL="C", LANG="C", PYTHONUTF8="0", PYTHONCOERCECLOCALE="0")}
+        res = {}
+        for tag, env in envs.items():
+            env.pop("PYTHONPATH", None)
+            d = os.path.join(tmp, tag)
+            os.mkdir(d)
+            p = subprocess.run([sys.executable, script, REPO, d], env=env, capture_output=True, text=True, timeout=300)
+            if p.returncode != 0:
+                raise RuntimeError("locale script (%s) failed: %s" % (tag, p.stderr[-500:]))
+            res[tag] = json.loads(p.stdout)
+            ctx.count("locale_processes")
+        for a, b in zip(res["utf8"], res["ascii"]):
+            where = "%s formula with non-ASCII variable names, %s, interpreter with ASCII default encoding" % (b["cls"], b["route"])
+            kind = "latex" if "tex" in b["route"] or "latex" in b["route"] else ("opb" if "opb" in b["route"] else "dimacs")
+            ctx.count("locale_exports")
+            if a["status"] != "ok":
+                ctx.violation("%s:by-name:raises" % kind, "under UTF-8: %s: %s" % (a["route"], a.get("exc")))
+                continue
+            text = binascii.unhexlify(a["bytes"]).decode("utf-8")
+            if kind == "latex" and not all(nm in text for nm in ("\u03b1_1", "caf\u00e9", "\u56fe")):
+                ctx.violation("latex:by-name:names-not-shown", "under UTF-8: %s: the document does not show the variable names" % a["route"])
+            if b["status"] != "ok":
+                ctx.violation("%s:by-name:locale:raises" % kind, "%s: %s" % (where, b.get("exc")))
+            elif b["bytes"] != a["bytes"]:
+                ctx.violation("%s:by-name:locale:another-file" % kind, "%s: the file differs from the one written under UTF-8 "
+                              "(%d vs %d bytes)" % (where, len(b["bytes"] or "") // 2, len(a["bytes"]) // 2))
+            ctx.judged(("locale", b["cls"], b["route"]), nontrivial=True, sample={"class": b["cls"], "route": b["route"]})
+    finally:
+        shutil.rmtree(tmp, ignore_errors=True)
+
+
 def workload(tier, seed):
     quick = tier == "quick"
     yield "tiny", {}
+    yield "locale", {}
     for cls in ("CNF", "OPB"):
         for where in ("header", "varname"):
             yield "shield", {"cls": cls, "where": where}
